@@ -144,12 +144,16 @@ def check_stores(chk, rule: str, site: str, ff: FuncFacts, fr: Frame, lay: Layou
         where = ff.func.loc(st.stmt)
         if st.lo == 0 and (st.hi == 1 or st.fmt is not None):
             if st.fmt is not None:
-                # pack_into at 0: command + multiplexer
+                # pack_into at 0: command + the fields that follow it
                 if st.hi is not None and fr.length is not None and st.hi > fr.length:
                     chk.bad(rule, f"{site} | store {src(st.stmt)[:40]}", where, f"pack_into writes bytes [{st.lo}, {st.hi}) of a {fr.length}-byte frame")
                     continue
-                chk.check((1, 4) in lay.allowed_stores and st.hi == 4, rule, f"{site} | header store", where,
-                          f"`{src(st.stmt)[:60]}` writes bytes [0, {st.hi}); the {lay.name} frame has " + ("a 3-byte multiplexer after the command" if (1, 4) in lay.allowed_stores else "no multiplexer"))
+                covered = {0}
+                for a, b in lay.allowed_stores:
+                    covered |= set(range(a, b))
+                stray = [i for i in range(0, st.hi or 0) if i not in covered]
+                chk.check(not stray and st.hi is not None, rule, f"{site} | header store", where,
+                          f"`{src(st.stmt)[:60]}` writes bytes [0, {st.hi}); the {lay.name} frame defines fields at {list(lay.allowed_stores)}: bytes {stray} are reserved")
             continue
         if st.lo is not None and st.hi is not None:
             inside = any(a <= st.lo and st.hi <= b for a, b in lay.allowed_stores)
